@@ -3,6 +3,7 @@ mod dom;
 mod dump;
 mod jt;
 mod lg;
+mod lz;
 mod st;
 mod util;
 
@@ -18,6 +19,7 @@ fn main() {
         "jt-record" => jt::record(&args),
         "lg-record" => lg::record(&args),
         "st-record" => st::record(&args),
+        "lz-record" => lz::record(&args),
         "dom-replay" => dom::replay(&args),
         _ => { eprintln!("unknown command {cmd}"); 2 }
     };
